@@ -379,6 +379,39 @@ def ledgerStr (d : DState) : String :=
   let terminal := sortBy (· < ·) (d.m.events.map fun e => toString e.1 ++ ":" ++ eventName d e.1 e.2)
   "settled started[" ++ joinWith " " started ++ "] terminal[" ++ joinWith " " terminal ++ "]"
 
+/-! ### S2: real nodes, one fault placement
+
+`s2 fault=<none|undialable|refused|limit> op=<put_to|find_node|start_providing> quorum=<one|n2|all>`: the local node
+knows a healthy peer `G` and the fault target `F`. What the model says about the outcome: a put to `[G, F]` succeeds
+iff the clamped quorum is at most the number of reachable targets (`Tracker`), a lookup ends with the peers that
+answered, an announcement goes to the peers found. For `limit` the transport manager accepts the dial of `F` and never
+concludes it (known finding): the environment does not become quiescent and the query stays live. Which remote ends
+received the data is an observation of the implementation (checked by the oracle). -/
+
+def kvArg (ts : List String) (k : String) : Option String :=
+  (ts.find? (fun t => t.startsWith (k ++ "="))).map (fun t => (t.drop (k.length + 1)).toString)
+
+def s2Expected (fault op : String) (quorum : Quorum) : String :=
+  if fault = "limit" then "-"
+  else if op = "put_to" then
+    let reachable := if fault = "none" then 2 else 1
+    let t := Tracker.new [1, 2] quorum
+    if t.peersToSucceed ≤ reachable then "PutRecordSuccess" else "QueryFailed"
+  else if op = "find_node" then "FindNodeSuccess"
+  else "AddProviderSuccess"
+
+def s2Step (ts : List String) (obs : String) : String :=
+  match kvArg ts "fault", kvArg ts "op", quorum? (kvArg ts "quorum") with
+  | some fault, some op, some quorum =>
+    if !(["none", "undialable", "refused", "limit"].contains fault) ||
+       !(["put_to", "find_node", "start_providing"].contains op) then "bad-op"
+    else if obs = "inconclusive" then "inconclusive"
+    else
+      let received := (kvArg (tokens obs) "received").getD "-"
+      let okRecv := received == "-" || received == "G" || received == "F" || received == "F,G"
+      "s2 terminal=" ++ s2Expected fault op quorum ++ " received=" ++ (if okRecv then received else "?")
+  | _, _, _ => "bad-op"
+
 def step (d : DState) (line : String) : DState × String :=
   let (op, obs) := match line.splitOn " -> " with
     | [] => ("", "")
@@ -386,6 +419,7 @@ def step (d : DState) (line : String) : DState × String :=
     | a :: rest => (a, joinWith " -> " rest)
   let ts := tokens op
   match ts with
+  | "s2" :: rest => (d, s2Step rest obs)
   | "net" :: ks =>
     let kinds := (ks.filter (fun k => !k.contains '=')).map (fun k => k.toList.headD 'x')
     let replOk := ks.all (fun k => !k.contains '=' || (k.startsWith "repl=" && (k.drop 5).toString.toNat?.isSome))
